@@ -11,7 +11,7 @@ import vlib
 
 
 def run(R):
-    pc.run_family(R, "C08", modes=["fw", "mix", "cs"], n_quick=240, n_thorough=9000)
+    pc.run_family(R, "C08", modes=["fw", "mix", "cs", "dnl"], n_quick=480, n_thorough=12000)
     tp = os.path.join(vlib.VERIF, "checks", "C08_tables.py")
     if os.path.exists(tp):
         try:
@@ -27,3 +27,7 @@ def run(R):
     else:
         R.notes.append("FIB/RIB part of C08 NOT included in this run: checks/C08_tables.py does not exist yet")
     return R.finish()
+
+
+def replay(R, path):
+    return pc.replay(R, "C08", path)
